@@ -2,6 +2,7 @@ package main
 
 import (
 	"encoding/json"
+	"fmt"
 	"io/ioutil"
 	"os"
 	"path/filepath"
@@ -93,6 +94,9 @@ func writeEvidence(prop, tier string, seed uint64, cfg tierCfg, ws *Workspace, m
 		sort.Strings(cells)
 		cov["cells"] = cells
 		cov["cells_covered"] = len(cells)
+		if prop == "C05" {
+			cov["cells_upper_bound"] = 5 * 5 * 32
+		}
 		cov["cells_rule"] = map[string]string{
 			"C05": "cell = (history shape | option kind class | subset of {cli, ini, env, default, stored} present for a judged option); at most 4 x 5 x 32 = 640",
 			"C12": "cell = (kind class : value class written | IniOptions)",
@@ -109,6 +113,11 @@ func writeEvidence(prop, tier string, seed uint64, cfg tierCfg, ws *Workspace, m
 		"assumptions": assumptions,
 		"wall_s":      wall,
 		"violations":  unlisted,
+	}
+	// self-check against the keys and minimums EVIDENCE.schema.json requires for
+	// level "exploration"
+	if m.Evals < 1 || nontriv < 2 || len(samples) < 1 || rules[prop] == "" {
+		return fmt.Errorf("evidence would not validate: evaluations=%d distinct_nontrivial=%d samples=%d", m.Evals, nontriv, len(samples))
 	}
 	b, err := json.MarshalIndent(ev, "", " ")
 	if err != nil {
